@@ -23,7 +23,7 @@ RULE = (
 REQUIRED = ["faithful_checked/generic", "faithful_checked/wl", "faithful_checked/morgan", "faithful_checked/nauty",
             "nauty_permutations_checked", "signature_repeat_checked", "soundness_groups_checked",
             "soundness_pairs_isomorphism_checked", "symmetric_graphs_checked", "value_objects_checked",
-            "synrule_checked", "tuple_order_graphs_checked", "nauty_distinct_classes_separated"]
+            "synrule_checked", "synrule_from_gml_checked", "tuple_order_graphs_checked", "nauty_distinct_classes_separated"]
 ASSUMPTIONS = [
     "covered attributes: element, charge, aromatic, hcount on nodes; order, standard_order on edges (the default keys)",
     "standard_order is a function of order in every generated graph (as in ITS graphs); independent variation is outside the data model",
@@ -173,7 +173,8 @@ def near_miss(rng, G):
     elif H.number_of_edges():
         u, w = rng.choice(list(H.edges))
         o = H[u][w]["order"]
-        H[u][w]["order"] = (o[0], o[1] + 1.0) if isinstance(o, tuple) else o + 1
+        step = rng.choice([1, 0.5, -0.5])
+        H[u][w]["order"] = (o[0], o[1] + 1.0) if isinstance(o, tuple) else max(0.5, o + step)
         if isinstance(o, tuple):
             H[u][w]["standard_order"] = H[u][w]["order"][0] - H[u][w]["order"][1]
     return H
@@ -202,6 +203,17 @@ def check_synrule(ctx):
         ctx.count("synrule_checked")
         if not (r1 == r2 and hash(r1) == hash(r2)):
             ctx.violation("synrule", {"rid": d.get("R-id")}, "SynRule(nauty): a relabelled copy of the rule compares unequal")
+        # secondary constructor: rules read back from GML text must behave the same with the exact back-end
+        try:
+            from synkit.IO.chem_converter import its_to_gml
+            g1 = its_to_gml(rc, core=False, reindex=False)
+            g2 = its_to_gml(H, core=False, reindex=False)
+            f1, f2 = SynRule.from_gml(g1, canonicaliser=c), SynRule.from_gml(g2, canonicaliser=c)
+            ctx.count("synrule_from_gml_checked")
+            if not (f1 == f2 and hash(f1) == hash(f2)):
+                ctx.violation("synrule", {"rid": d.get("R-id"), "via": "from_gml"}, "SynRule.from_gml(nauty): a relabelled copy of the rule compares unequal")
+        except Exception:
+            ctx.count("synrule_from_gml_failed")
         k = r1.canonical_smiles
         if k in seen:
             o = seen[k]
@@ -264,7 +276,8 @@ def run(ctx):
             ctx.count("tuple_order_graphs_checked")
         else:
             G = WG.random_mol(rng, rng.randint(3, 9), components=rng.choice([1, 1, 2]), p_charge=0.15,
-                              elements=rng.choice([("C",), ("C", "C", "N"), ("C", "N", "O")]))
+                              elements=rng.choice([("C",), ("C", "C", "N"), ("C", "N", "O")]),
+                              orders=rng.choice([(1, 1, 1, 2), (1, 1.5, 1.5, 2), (1, 2, 2.5, 3)]))
             for v in G.nodes:
                 G.nodes[v]["aromatic"] = rng.random() < 0.2
         G, _ = WG.scramble(G, rng)
